@@ -101,7 +101,35 @@ Section C07.
   Proof.
     intros. split; [intros; eapply db_fallback_unreachable; eauto | intros; eapply exec_pipeline_hit_or_run; eauto].
   Qed.
+
+  (* compare_two_records after any guarded history: the score table is the closed-form [c2_spec] - the two records, the
+     model and, per tf column, the source chosen by EntryPoints.route_priority: the cached tf table (registered lookup)
+     BEFORE select-distinct from a cached __splink__df_concat_with_tf BEFORE NULL *)
+  Theorem C07_compare_two_records_follows_the_tf_route :
+    forall inputs ver tfcols params uid luid fx ops flag,
+      inputs_plain inputs ->
+      hist_ok K keqb hash (init_state K inputs ver tfcols params uid luid fx) ops = true ->
+      let s := run K keqb hash (init_state K inputs ver tfcols params uid luid fx) ops in
+      result_prov K keqb hash s (CompareTwo flag) = c2_spec K keqb s flag.
+  Proof. intros. apply compare_two_correct; auto. apply run_inv2; auto. apply init_inv2; auto. Qed.
+
+  (* hence with a lookup (or computed tf table) cached for every tf column the result is a function of records, model and
+     those tables only: whether predict / EM / clustering / find_matches ran before (cached concat_with_tf) is irrelevant *)
+  Theorem C07_compare_two_records_registered_lookups_have_priority :
+    forall inputs ver tfcols params uid luid fx ops flag,
+      inputs_plain inputs ->
+      hist_ok K keqb hash (init_state K inputs ver tfcols params uid luid fx) ops = true ->
+      let s := run K keqb hash (init_state K inputs ver tfcols params uid luid fx) ops in
+      (forall c, In c (st_tfcols K s) -> amem K keqb (st_cache K s) (named K (tfname c)) = true) ->
+      result_prov K keqb hash s (CompareTwo flag) =
+      derive (c2_name flag) (st_params K s)
+             ([PRecords (st_ctr K s); PRecords (S (st_ctr K s))] ++ map (tf_spec K keqb s) (st_tfcols K s)).
+  Proof.
+    intros. rewrite <- c2_spec_all_registered by auto. apply compare_two_correct; auto. apply run_inv2; auto. apply init_inv2; auto.
+  Qed.
 End C07.
+Print Assumptions C07_compare_two_records_follows_the_tf_route.
+Print Assumptions C07_compare_two_records_registered_lookups_have_priority.
 Print Assumptions C07_db_fallback_unreachable.
 Print Assumptions C07_hashed_entries_sound.
 Print Assumptions C07_predict_is_a_function_of_data_model_lookups.
@@ -120,8 +148,8 @@ Print Assumptions C07_realtime_cache_transparent.
    (instance: K = sqlt * nat, hash = pair - injective by construction) *)
 Definition s0 (fx : fixes) : state KI :=
   init_state KI [LPlain "inp"] 0 ["first_name"; "surname"] 0 5 6 fx.
-Definition unfixed : fixes := {| fx77 := false; fx716 := false; fx715 := false |}.
-Definition repaired : fixes := {| fx77 := true; fx716 := true; fx715 := true |}.
+Definition unfixed : fixes := {| fx77 := false; fx716 := false; fx715 := false; fx718 := false |}.
+Definition repaired : fixes := {| fx77 := true; fx716 := true; fx715 := true; fx718 := true |}.
 Definition predict_prov (s : state KI) : prov := result_prov KI keqbI hashI s Predict.
 
 (* (a) DESIGN 7.7: predict; register_term_frequency_lookup; predict - on the unrepaired tree the named
@@ -184,6 +212,23 @@ Proof.
   cbv zeta. split; [vm_compute; reflexivity|split; [vm_compute; reflexivity|]]. intros H. vm_compute in H. discriminate H.
 Qed.
 Print Assumptions C07_invalidate_reflects_new_data_refuted_when_results_are_retained.
+
+(* 7.18: register_term_frequency_lookup(..., overwrite=True) over an existing lookup keeps the physical name, so the SQL
+   of every derived table is textually unchanged: on the unrepaired tree the old __splink__df_predict is served *)
+Theorem C07_predict_equals_fresh_refuted_lookup_overwrite :
+  exists ops,
+    let fx := {| fx77 := true; fx716 := true; fx715 := true; fx718 := false |} in
+    let s := run KI keqbI hashI (s0 fx) ops in
+    predict_prov s <> predict_prov (fresh_of KI keqbI s 777 888).
+Proof.
+  exists [RegisterTF "first_name" 1; Predict; RegisterTFOverwrite "first_name" 2].
+  cbv zeta. intros H. vm_compute in H. discriminate H.
+Qed.
+Print Assumptions C07_predict_equals_fresh_refuted_lookup_overwrite.
+Example C07_lookup_overwrite_repaired :
+  let s := run KI keqbI hashI (s0 repaired) [RegisterTF "first_name" 1; Predict; RegisterTFOverwrite "first_name" 2] in
+  predict_prov s = predict_prov (fresh_of KI keqbI s 777 888).
+Proof. vm_compute. reflexivity. Qed.
 
 (* (c) DESIGN 7.8: realtime cache key without the flag - a cached call with the flag after a call
    without it runs the SQL generated without the column *)
